@@ -5,6 +5,8 @@ package main
 // op C14.run, input:   <cmd> # <flagspec> # <tree>
 //   cmd       check | balance | print | format | infer | transcode | weights | returns
 //   flagspec  "raw <hex> <hex> ..."   argv elements between the command words and the root file (hex, "-" = empty string)
+//             "flg <hex> <hex> ..."   the same, in the flag family: the exit class is predicted from Model/Flags.v and
+//                                     Model/CliFlags.v (the raw files of the tree are read with the model's parser)
 //             "pred"                  no flags; the case lies inside the modelled space (check, print)
 //             "bal <BalCfg.Enc()>"    balance flags of the modelled space (BalCfg.Args())
 //             "tc val=<V or ->"       transcode [-v V]  (modelled space: Model/CliTranscode.v)
@@ -179,9 +181,9 @@ func (c c14Case) argv(dir string) []string {
 		a = pc.weightsArgs(dir, false, pc.From)
 	case strings.HasPrefix(c.Flags, "pfr "):
 		a = DecodePfCfg(strings.TrimPrefix(c.Flags, "pfr ")).returnsArgs()
-	case strings.HasPrefix(c.Flags, "raw"):
+	case strings.HasPrefix(c.Flags, "raw"), strings.HasPrefix(c.Flags, "flg"):
 		a = append(a, c14CmdWords[c.Cmd]...)
-		for _, h := range strings.Fields(strings.TrimPrefix(c.Flags, "raw")) {
+		for _, h := range strings.Fields(c.Flags[3:]) {
 			a = append(a, unhx(h))
 		}
 	default:
@@ -722,18 +724,25 @@ var c14Dates = []string{"2020-01-01", "2021-06-01", "0001-01-01", "0000-01-01", 
 // sized an allocation with --last and was missed while the largest values were 2^31-1 and an unparsable one)
 var c14Ints = []string{"0", "1", "-1", "-5", "3", "2147483647", "-2147483648", "99999999999999999999", "x", "",
 	"9223372036854775807", "-9223372036854775808", "4294967296", "1000000000000"}
+
+// what strconv.ParseInt(s, 0, 64) makes of base prefixes, underscores and signs (pflag's int flags)
+var c14IntForms = []string{"0x10", "0X1f", "0b101", "0o17", "017", "08", "1_000", "1__0", "_1", "1_", "0x_f", "+3", "+", "-", "0x", " 1", "1e3", "-0x8000000000000000", "0x8000000000000000"}
 var c14Rx = []string{"Assets", "^Expenses", "(", "[", ".*", "", "\\", "a{1000}", "(?i)assets", "$^"}
 var c14Coms = []string{"CHF", "USD", "", "X Y", "chf", "ÄÖ", "1", "A:B", strings.Repeat("C", 3000)}
 var c14Maps = []string{"1,Assets", "0,Assets", "-1,Assets", "-1", "1:-1,Assets", "1:-2,", "-2:-2,.", "2:1,^", "99,Assets", "1:99,Assets", "x,Assets", "1:2:3,A", ",", "", "1,(", "2147483648,A"}
 
 func c14Pools(cmd string) []c14FlagPool {
 	multi := []c14FlagPool{{"--from", c14Dates}, {"--to", c14Dates}, {"--last", c14Ints},
-		{"--days", nil}, {"--weeks", nil}, {"--months", nil}, {"--quarters", nil}, {"--years", nil}, {"--once", nil}}
+		{"--days", nil}, {"--weeks", nil}, {"--months", nil}, {"--quarters", nil}, {"--years", nil}, {"--once", nil},
+		// the forms of pflag's argument list: explicit boolean values (a flag set to false still counts as set for the
+		// exclusive interval group), clustered shorthands, the terminator, a lone dash, malformed flag syntax, help
+		{"--last", c14IntForms}, {"--days=false", nil}, {"--months=true", nil}, {"--years=maybe", nil}, {"--once=0", nil},
+		{"-ak", nil}, {"-ka", nil}, {"--", nil}, {"-", nil}, {"--=x", nil}, {"---x", nil}, {"--help", nil}, {"-h", nil}}
 	switch cmd {
 	case "balance":
 		return append(multi, c14FlagPool{"-v", c14Coms}, c14FlagPool{"-m", c14Maps}, c14FlagPool{"--remap", c14Rx},
 			c14FlagPool{"--account", c14Rx}, c14FlagPool{"--commodity", c14Rx}, c14FlagPool{"-s", c14Rx},
-			c14FlagPool{"--digits", []string{"0", "2", "-1", "-5", "8", "30", "x", "2147483648"}}, c14FlagPool{"-k", nil}, c14FlagPool{"--csv", nil},
+			c14FlagPool{"--digits", []string{"0", "2", "-1", "-5", "8", "30", "x", "2147483648", "0x10", "1_0", "-2147483649", "010"}}, c14FlagPool{"-k", nil}, c14FlagPool{"--csv", nil},
 			c14FlagPool{"--diff", nil}, c14FlagPool{"--close=false", nil}, c14FlagPool{"-a", nil}, c14FlagPool{"--color=false", nil},
 			c14FlagPool{"--cpuprofile", []string{"no/such/dir/prof", ""}}, c14FlagPool{"--nosuchflag", nil})
 	case "weights":
@@ -758,9 +767,22 @@ func c14HostileFlags(r *rng, cmd string) []string {
 	n := r.rangeInt(0, 4)
 	for k := 0; k < n; k++ {
 		p := pick(r, pools)
-		a = append(a, p.name)
-		if p.vals != nil {
-			a = append(a, pick(r, p.vals))
+		if p.vals == nil {
+			a = append(a, p.name)
+		} else {
+			// "--name value", "--name=value"; "-x value", "-xvalue", "-x=value"
+			v := pick(r, p.vals)
+			long := strings.HasPrefix(p.name, "--")
+			switch f := r.intn(100); {
+			case long && f < 25:
+				a = append(a, p.name+"="+v)
+			case !long && f < 15 && v != "":
+				a = append(a, p.name+v)
+			case !long && f < 25:
+				a = append(a, p.name+"="+v)
+			default:
+				a = append(a, p.name, v)
+			}
 		}
 		if p.name == "--last" && r.chance(60) {
 			// --last only matters together with an interval
@@ -875,7 +897,7 @@ func genC14(out *caseWriter, seed uint64, n int, args []string) error {
 			if r.chance(3) {
 				fl = append(fl, "extra-positional.knut")
 			}
-			c.Flags = rawFlags(fl...)
+			c.Flags = "flg" + strings.TrimPrefix(rawFlags(fl...), "raw")
 			if r.chance(2) {
 				c.Tree = nil // the root file does not exist
 			}
